@@ -10,6 +10,7 @@ import Driver.ValDrv
 import Driver.SelDrv
 import Driver.TmoDrv
 import Driver.XmlDrv
+import Driver.FaultsDrv
 open Cgreen.Drv
 
 /-- Read all of stdin as lines. -/
@@ -48,6 +49,10 @@ def main (args : List String) : IO UInt32 := do
     return 0
   | ["timeout"] =>
     for l in lines do out.putStrLn (Cgreen.Drv.TM.evalLine l)
+    return 0
+  | ["faults"] =>
+    for b in blocks lines do
+      out.putStrLn (Cgreen.Drv.FL.runBlock b)
     return 0
   | ["select"] =>
     for b in blocks lines do
